@@ -6,10 +6,13 @@ refines the **atomic** key store in which every operation of a handle runs in on
 * `atomicOp ring snap op` is the sequential meaning of one handle operation: prepare the transactions
   from the handle's snapshot, apply them to the stored ring; on success ring and snapshot become the
   new ring, on an optimistic-check failure the snapshot is refreshed and nothing is stored, an
-  operation rejected during preparation changes nothing, a re-read refreshes the snapshot.
+  operation rejected during preparation changes nothing, a re-read refreshes the snapshot;
+  `OpenKeyRingRW` of an existing ring loads it (success, empty transaction list). On a **missing** ring
+  (`AState.exec`) `OpenKeyRingRW` creates the empty ring, every other operation fails and changes nothing.
 * `linPoint s i` says whether the next step of thread `i` in state `s` is the *linearisation point* of
   its current operation (the atomic `Rename` for a successful write, the `Get` under the lock for a
-  write that fails its optimistic checks or for a re-read, the preparation step for a rejected one).
+  write that fails its optimistic checks, for a re-read, for an `OpenKeyRingRW` that finds its ring and
+  for anything but `OpenKeyRingRW` on a missing ring; the preparation step for a rejected one).
   It is a step of the operation's own thread, between the operation's first and last step.
 * `linTrace s sched` lists the operations in the order of their linearisation points.
 * `Sim` relates a concurrent state to the atomic state reached by running `linTrace` sequentially.
@@ -34,15 +37,25 @@ def atomicOp (ring snap : Ring) (op : Op) : Ring × Ring × Option (List Tx) :=
       | none => (ring, ring, none)
       | some r' => (r', r', some txs)
 
-/-- state of the atomic key store: ring files, snapshot per handle, and the log of results -/
+/-- state of the atomic key store: ring files (and whether they exist), snapshot per handle, and the
+log of results -/
 structure AState where
   cur : Nat → Ring
   snap : Nat → Ring
   log : List (Event × Option (List Tx))
+  ex : Nat → Bool
 
+/-- one operation, atomically. Ring there: `atomicOp`. Ring missing: `OpenKeyRingRW` creates the empty
+ring (and succeeds with the empty transaction list), everything else fails without any effect. -/
 def AState.exec (a : AState) (e : Event) : AState :=
-  let r := atomicOp (a.cur e.path) (a.snap e.tid) e.op
-  ⟨upd a.cur e.path r.1, upd a.snap e.tid r.2.1, a.log ++ [(e, r.2.2)]⟩
+  if a.ex e.path then
+    let r := atomicOp (a.cur e.path) (a.snap e.tid) e.op
+    { a with cur := upd a.cur e.path r.1, snap := upd a.snap e.tid r.2.1, log := a.log ++ [(e, r.2.2)] }
+  else if e.op = .open then
+    { cur := upd a.cur e.path emptyRing, snap := upd a.snap e.tid emptyRing, log := a.log ++ [(e, some [])],
+      ex := upd a.ex e.path true }
+  else
+    { a with log := a.log ++ [(e, none)] }
 
 /-- the sequential run -/
 def atomicRun (a : AState) (es : List Event) : AState := es.foldl AState.exec a
@@ -58,7 +71,11 @@ def linPoint (s : St) (i : Nat) : Option Event :=
   | op :: _ =>
     match hd.pc with
     | .idle => if op ≠ .refresh ∧ (prepare hd.snap op).isNone then some ⟨i, hd.path, op⟩ else none
-    | .locked => if (applyAll hd.txs (s.cur hd.path)).isNone then some ⟨i, hd.path, op⟩ else none
+    | .locked =>
+      if s.ex hd.path then
+        if op = .open then some ⟨i, hd.path, op⟩
+        else if (applyAll hd.txs (s.cur hd.path)).isNone then some ⟨i, hd.path, op⟩ else none
+      else if op = .open then none else some ⟨i, hd.path, op⟩
     | .put => if (s.new hd.path).isSome then some ⟨i, hd.path, op⟩ else none
     | .rlocked => some ⟨i, hd.path, op⟩
     | _ => none
@@ -77,6 +94,7 @@ def pending (hd : Handle) : List (Op × Option (List Tx)) :=
     | .renamed => [(op, some hd.txs)]
     | .failed => [(op, none)]
     | .rgot => [(op, some [])]
+    | .rfailed => [(op, none)]
     | _ => []
 
 /-- results of thread `i` in the sequential run, in order -/
@@ -108,10 +126,11 @@ structure Sim (s : St) (a : AState) : Prop where
     ∃ op rest, (s.h i).todo = op :: rest ∧ prepare (a.snap i) op = some (s.h i).txs
   res : ∀ i, resultsOf a.log i = (s.h i).done ++ pending (s.h i)
   commits : committed a.log = s.commits
+  ex : ∀ p, a.ex p = s.ex p
 
 /-- a step that is not a linearisation point and changes neither the ring files nor the commit log -/
 theorem sim_local (s s' : St) (a : AState) (i : Nat) (hd' : Handle) (h : Sim s a)
-    (hc : s'.cur = s.cur) (hm : s'.commits = s.commits) (hh : s'.h = upd s.h i hd')
+    (hc : s'.cur = s.cur) (hm : s'.commits = s.commits) (he : s'.ex = s.ex) (hh : s'.h = upd s.h i hd')
     (hsnap : hd'.pc ≠ .got → hd'.pc ≠ .put → a.snap i = hd'.snap)
     (hprep : (hd'.pc = .locked ∨ hd'.pc = .got ∨ hd'.pc = .put) →
       ∃ op rest, hd'.todo = op :: rest ∧ prepare (a.snap i) op = some hd'.txs)
@@ -134,34 +153,32 @@ theorem sim_local (s s' : St) (a : AState) (i : Nat) (hd' : Handle) (h : Sim s a
     · subst hji; simp only [upd_same]; rw [hres]; exact h.res j
     · simp only [upd, if_neg hji]; exact h.res j
   · rw [hm]; exact h.commits
+  · intro p; rw [he]; exact h.ex p
 
-/-- a linearisation point of thread `i`: the atomic store executes the operation -/
-theorem sim_event (s s' : St) (a : AState) (i : Nat) (hd' : Handle) (op : Op) (h : Sim s a)
-    (r' sn' : Ring) (res : Option (List Tx))
-    (hat : atomicOp (a.cur (s.h i).path) (a.snap i) op = (r', sn', res))
-    (hc : s'.cur = upd s.cur (s.h i).path r')
+/-- a linearisation point of thread `i`, general form: `a'` is the atomic store after the operation -/
+theorem sim_event' (s s' : St) (a a' : AState) (i : Nat) (hd' : Handle) (op : Op) (h : Sim s a)
+    (res : Option (List Tx))
+    (hcur : ∀ p, a'.cur p = s'.cur p)
+    (hex : ∀ p, a'.ex p = s'.ex p)
+    (hsn : a'.snap = upd a.snap i hd'.snap)
+    (hlog : a'.log = a.log ++ [(⟨i, (s.h i).path, op⟩, res)])
     (hm : s'.commits = s.commits ++
       (if op = .refresh then [] else match res with | none => [] | some t => [(⟨i, (s.h i).path, t⟩ : Commit)]))
     (hh : s'.h = upd s.h i hd')
     (hpc : hd'.pc ≠ .locked ∧ hd'.pc ≠ .got ∧ hd'.pc ≠ .put)
-    (hsnap : sn' = hd'.snap)
     (hres : hd'.done ++ pending hd' = (s.h i).done ++ pending (s.h i) ++ [(op, res)]) :
-    Sim s' (a.exec ⟨i, (s.h i).path, op⟩) := by
+    Sim s' a' := by
   constructor
-  · intro p
-    simp only [AState.exec, hat, hc]
-    by_cases hp : p = (s.h i).path
-    · subst hp; simp
-    · simp only [upd, if_neg hp]; exact h.cur p
+  · exact hcur
   · intro j h1 h2
     rw [hh] at h1 h2 ⊢
-    simp only [AState.exec, hat]
+    rw [hsn]
     by_cases hji : j = i
-    · subst hji; simp only [upd_same]; exact hsnap
+    · subst hji; simp only [upd_same]
     · simp only [upd, if_neg hji] at h1 h2 ⊢; exact h.snap j h1 h2
   · intro j h1
     rw [hh] at h1 ⊢
-    simp only [AState.exec, hat]
+    rw [hsn]
     by_cases hji : j = i
     · subst hji; simp only [upd_same] at h1
       rcases h1 with h1 | h1 | h1
@@ -170,15 +187,96 @@ theorem sim_event (s s' : St) (a : AState) (i : Nat) (hd' : Handle) (op : Op) (h
       · exact absurd h1 hpc.2.2
     · simp only [upd, if_neg hji] at h1 ⊢; exact h.prep j h1
   · intro j
-    rw [hh]
-    simp only [AState.exec, hat, resultsOf_snoc]
+    rw [hh, hlog, resultsOf_snoc]
     by_cases hji : j = i
     · subst hji; simp only [upd_same, if_true]; rw [hres, h.res j]
     · simp only [upd, if_neg hji, if_neg (Ne.symm hji), List.append_nil]; exact h.res j
-  · simp only [AState.exec, hat, committed_snoc]
-    rw [hm, h.commits]
+  · rw [hlog, committed_snoc, hm, h.commits]
+  · exact hex
 
-theorem pending_of_pc (hd : Handle) (h : hd.pc ≠ .renamed ∧ hd.pc ≠ .failed ∧ hd.pc ≠ .rgot) : pending hd = [] := by
+/-- a linearisation point of thread `i` on an existing ring: the atomic store executes the operation -/
+theorem sim_event (s s' : St) (a : AState) (i : Nat) (hd' : Handle) (op : Op) (h : Sim s a)
+    (r' sn' : Ring) (res : Option (List Tx))
+    (hexa : s.ex (s.h i).path = true)
+    (hat : atomicOp (a.cur (s.h i).path) (a.snap i) op = (r', sn', res))
+    (hc : s'.cur = upd s.cur (s.h i).path r')
+    (hm : s'.commits = s.commits ++
+      (if op = .refresh then [] else match res with | none => [] | some t => [(⟨i, (s.h i).path, t⟩ : Commit)]))
+    (he : ∀ p, s'.ex p = s.ex p)
+    (hh : s'.h = upd s.h i hd')
+    (hpc : hd'.pc ≠ .locked ∧ hd'.pc ≠ .got ∧ hd'.pc ≠ .put)
+    (hsnap : sn' = hd'.snap)
+    (hres : hd'.done ++ pending hd' = (s.h i).done ++ pending (s.h i) ++ [(op, res)]) :
+    Sim s' (a.exec ⟨i, (s.h i).path, op⟩) := by
+  have hea : a.ex (s.h i).path = true := by rw [h.ex]; exact hexa
+  have hx : a.exec ⟨i, (s.h i).path, op⟩ =
+      { a with cur := upd a.cur (s.h i).path r', snap := upd a.snap i sn', log := a.log ++ [(⟨i, (s.h i).path, op⟩, res)] } := by
+    simp [AState.exec, hea, hat]
+  rw [hx]
+  refine sim_event' s s' a _ i hd' op h res ?_ ?_ ?_ rfl hm hh hpc hres
+  · intro p
+    simp only [hc]
+    by_cases hp : p = (s.h i).path
+    · subst hp; simp
+    · simp only [upd, if_neg hp]; exact h.cur p
+  · intro p; rw [he]; exact h.ex p
+  · simp only [hsnap]
+
+/-- a linearisation point of thread `i` on a missing ring, any operation but `OpenKeyRingRW`: it fails,
+nothing changes -/
+theorem sim_event_missing (s s' : St) (a : AState) (i : Nat) (hd' : Handle) (op : Op) (h : Sim s a)
+    (hexa : s.ex (s.h i).path = false) (hop : op ≠ .open)
+    (hc : s'.cur = s.cur) (hm : s'.commits = s.commits) (he : s'.ex = s.ex)
+    (hh : s'.h = upd s.h i hd')
+    (hpc : hd'.pc ≠ .locked ∧ hd'.pc ≠ .got ∧ hd'.pc ≠ .put)
+    (hsnap : a.snap i = hd'.snap)
+    (hres : hd'.done ++ pending hd' = (s.h i).done ++ pending (s.h i) ++ [(op, none)]) :
+    Sim s' (a.exec ⟨i, (s.h i).path, op⟩) := by
+  have hea : a.ex (s.h i).path = false := by rw [h.ex]; exact hexa
+  have hx : a.exec ⟨i, (s.h i).path, op⟩ = { a with log := a.log ++ [(⟨i, (s.h i).path, op⟩, none)] } := by
+    simp [AState.exec, hea, hop]
+  rw [hx]
+  refine sim_event' s s' a _ i hd' op h none ?_ ?_ ?_ rfl ?_ hh hpc hres
+  · intro p; rw [hc]; exact h.cur p
+  · intro p; rw [he]; exact h.ex p
+  · funext j
+    by_cases hji : j = i
+    · subst hji; simp [hsnap]
+    · simp [upd, hji]
+  · rw [hm]; by_cases hr : op = .refresh <;> simp [hr]
+
+/-- the linearisation point of a creating `OpenKeyRingRW`: the rename of the empty ring -/
+theorem sim_event_create (s s' : St) (a : AState) (i : Nat) (hd' : Handle) (h : Sim s a)
+    (hexa : s.ex (s.h i).path = false)
+    (hc : s'.cur = upd s.cur (s.h i).path emptyRing)
+    (hm : s'.commits = s.commits ++ [(⟨i, (s.h i).path, []⟩ : Commit)])
+    (he : s'.ex = upd s.ex (s.h i).path true)
+    (hh : s'.h = upd s.h i hd')
+    (hpc : hd'.pc ≠ .locked ∧ hd'.pc ≠ .got ∧ hd'.pc ≠ .put)
+    (hsnap : hd'.snap = emptyRing)
+    (hres : hd'.done ++ pending hd' = (s.h i).done ++ pending (s.h i) ++ [(.open, some [])]) :
+    Sim s' (a.exec ⟨i, (s.h i).path, .open⟩) := by
+  have hea : a.ex (s.h i).path = false := by rw [h.ex]; exact hexa
+  have hx : a.exec ⟨i, (s.h i).path, .open⟩ =
+      { cur := upd a.cur (s.h i).path emptyRing, snap := upd a.snap i emptyRing,
+        log := a.log ++ [(⟨i, (s.h i).path, .open⟩, some [])], ex := upd a.ex (s.h i).path true } := by
+    simp [AState.exec, hea]
+  rw [hx]
+  refine sim_event' s s' a _ i hd' .open h (some []) ?_ ?_ ?_ rfl ?_ hh hpc hres
+  · intro p
+    simp only [hc]
+    by_cases hp : p = (s.h i).path
+    · subst hp; simp
+    · simp only [upd, if_neg hp]; exact h.cur p
+  · intro p
+    simp only [he]
+    by_cases hp : p = (s.h i).path
+    · subst hp; simp
+    · simp only [upd, if_neg hp]; exact h.ex p
+  · simp only [hsnap]
+  · rw [hm]; simp
+
+theorem pending_of_pc (hd : Handle) (h : hd.pc ≠ .renamed ∧ hd.pc ≠ .failed ∧ hd.pc ≠ .rgot ∧ hd.pc ≠ .rfailed) : pending hd = [] := by
   unfold pending
   split
   · rfl
@@ -194,6 +292,8 @@ def AState.after (a : AState) (s : St) (i : Nat) : AState :=
 theorem step_sim (c0 : Nat → Ring) (s : St) (a : AState) (i : Nat) (hI : Inv c0 s) (h : Sim s a) :
     Sim (step s i) (a.after s i) := by
   unfold AState.after
+  have updSelf : ∀ (q : Nat), s.cur = upd s.cur q (s.cur q) := by
+    intro q; funext q'; by_cases hq : q' = q <;> simp [upd, hq]
   cases hpc : (s.h i).pc with
   | idle =>
     have hpend : pending (s.h i) = [] := pending_of_pc _ (by simp [hpc])
@@ -211,7 +311,7 @@ theorem step_sim (c0 : Nat → Ring) (s : St) (a : AState) (i : Nat) (hI : Inv c
         · have e : step s i = { s with readers := i :: s.readers, h := upd s.h i { s.h i with pc := .rlocked } } := by
             simp [step, stepCall, hpc, htodo, hw]
           rw [e]
-          refine sim_local s _ a i _ h rfl rfl rfl ?_ ?_ ?_
+          refine sim_local s _ a i _ h rfl rfl rfl rfl ?_ ?_ ?_
           · intro _ _; exact hsn
           · intro hc; simp at hc
           · rw [hpend, pending_of_pc _ (by simp)]
@@ -225,13 +325,18 @@ theorem step_sim (c0 : Nat → Ring) (s : St) (a : AState) (i : Nat) (hI : Inv c
           have e : step s i = { s with h := upd s.h i (finish (s.h i) none) } := by
             simp [step, stepCall, hpc, htodo, hop, hprep]
           rw [e, hfin]
-          refine sim_event s _ a i _ op h (s.cur (s.h i).path) (s.h i).snap none ?_ ?_ ?_ rfl ?_ rfl ?_
-          · simp [atomicOp, hop, hsn, hprep, h.cur]
-          · show s.cur = upd s.cur (s.h i).path (s.cur (s.h i).path)
-            funext q; by_cases hq : q = (s.h i).path <;> simp [upd, hq]
-          · simp [hop]
-          · simp
-          · rw [hpend, pending_of_pc _ (by simp)]; simp
+          by_cases hex : s.ex (s.h i).path = true
+          · refine sim_event s _ a i _ op h (s.cur (s.h i).path) (s.h i).snap none hex ?_ ?_ ?_ (fun _ => rfl) rfl ?_ rfl ?_
+            · simp [atomicOp, hop, hsn, hprep, h.cur]
+            · exact updSelf _
+            · simp [hop]
+            · simp
+            · rw [hpend, pending_of_pc _ (by simp)]; simp
+          · have hex' : s.ex (s.h i).path = false := by simpa using hex
+            have hno : op ≠ .open := by intro e'; subst e'; simp [prepare] at hprep
+            refine sim_event_missing s _ a i _ op h hex' hno rfl rfl rfl rfl ?_ hsn ?_
+            · simp
+            · rw [hpend, pending_of_pc _ (by simp)]; simp
         | some txs =>
           have hl : linPoint s i = none := by simp [linPoint, htodo, hpc, hop, hprep]
           rw [hl]
@@ -239,7 +344,7 @@ theorem step_sim (c0 : Nat → Ring) (s : St) (a : AState) (i : Nat) (hI : Inv c
           · have e : step s i = { s with writer := some i, h := upd s.h i { s.h i with pc := .locked, txs := txs } } := by
               simp [step, stepCall, hpc, htodo, hop, hprep, hlk]
             rw [e]
-            refine sim_local s _ a i _ h rfl rfl rfl ?_ ?_ ?_
+            refine sim_local s _ a i _ h rfl rfl rfl rfl ?_ ?_ ?_
             · intro _ _; exact hsn
             · intro _; exact ⟨op, rest, htodo, by rw [hsn]; exact hprep⟩
             · rw [hpend, pending_of_pc _ (by simp)]
@@ -251,30 +356,63 @@ theorem step_sim (c0 : Nat → Ring) (s : St) (a : AState) (i : Nat) (hI : Inv c
     obtain ⟨op, rest, htodo, hprep⟩ := h.prep i (Or.inl hpc)
     obtain ⟨op', rest', htodo', hop⟩ := hI.todoW i hcsi
     rw [htodo] at htodo'; cases htodo'
-    cases happ : applyAll (s.h i).txs (s.cur (s.h i).path) with
-    | none =>
-      have hl : linPoint s i = some ⟨i, (s.h i).path, op⟩ := by simp [linPoint, htodo, hpc, happ]
-      rw [hl]
-      have e : step s i = { s with h := upd s.h i { s.h i with pc := .failed, snap := s.cur (s.h i).path } } := by
-        simp [step, stepCall, hpc, happ]
-      rw [e]
-      refine sim_event s _ a i _ op h (s.cur (s.h i).path) (s.cur (s.h i).path) none ?_ ?_ ?_ rfl ?_ rfl ?_
-      · simp [atomicOp, hop, hprep, h.cur, happ]
-      · show s.cur = upd s.cur (s.h i).path (s.cur (s.h i).path)
-        funext q; by_cases hq : q = (s.h i).path <;> simp [upd, hq]
-      · simp [hop]
-      · simp
-      · rw [hpend]; simp [pending, htodo]
-    | some r' =>
-      have hl : linPoint s i = none := by simp [linPoint, htodo, hpc, happ]
-      rw [hl]
-      have e : step s i = { s with h := upd s.h i { s.h i with pc := .got, snap := s.cur (s.h i).path } } := by
-        simp [step, stepCall, hpc, happ]
-      rw [e]
-      refine sim_local s _ a i _ h rfl rfl rfl ?_ ?_ ?_
-      · intro hc; simp at hc
-      · intro _; exact ⟨op, rest, htodo, hprep⟩
-      · rw [hpend, pending_of_pc _ (by simp)]
+    by_cases hex : s.ex (s.h i).path = true
+    · by_cases hopen : op = .open
+      · subst hopen
+        have hl : linPoint s i = some ⟨i, (s.h i).path, .open⟩ := by simp [linPoint, htodo, hpc, hex]
+        rw [hl]
+        have e : step s i = { s with commits := s.commits ++ [(⟨i, (s.h i).path, []⟩ : Commit)], h := upd s.h i { s.h i with pc := .renamed, snap := s.cur (s.h i).path, txs := [] } } := by
+          simp [step, stepCall, hpc, htodo, hex]
+        rw [e]
+        refine sim_event s _ a i _ .open h (s.cur (s.h i).path) (s.cur (s.h i).path) (some []) hex ?_ ?_ ?_ (fun _ => rfl) rfl ?_ rfl ?_
+        · simp [atomicOp, prepare, applyAll, h.cur]
+        · exact updSelf _
+        · simp
+        · simp
+        · rw [hpend]; simp [pending, htodo]
+      · cases happ : applyAll (s.h i).txs (s.cur (s.h i).path) with
+        | none =>
+          have hl : linPoint s i = some ⟨i, (s.h i).path, op⟩ := by simp [linPoint, htodo, hpc, hex, hopen, happ]
+          rw [hl]
+          have e : step s i = { s with h := upd s.h i { s.h i with pc := .failed, snap := s.cur (s.h i).path } } := by
+            simp [step, stepCall, hpc, htodo, hex, hopen, happ]
+          rw [e]
+          refine sim_event s _ a i _ op h (s.cur (s.h i).path) (s.cur (s.h i).path) none hex ?_ ?_ ?_ (fun _ => rfl) rfl ?_ rfl ?_
+          · simp [atomicOp, hop, hprep, h.cur, happ]
+          · exact updSelf _
+          · simp [hop]
+          · simp
+          · rw [hpend]; simp [pending, htodo]
+        | some r' =>
+          have hl : linPoint s i = none := by simp [linPoint, htodo, hpc, hex, hopen, happ]
+          rw [hl]
+          have e : step s i = { s with h := upd s.h i { s.h i with pc := .got, snap := s.cur (s.h i).path } } := by
+            simp [step, stepCall, hpc, htodo, hex, hopen, happ]
+          rw [e]
+          refine sim_local s _ a i _ h rfl rfl rfl rfl ?_ ?_ ?_
+          · intro hc; simp at hc
+          · intro _; exact ⟨op, rest, htodo, hprep⟩
+          · rw [hpend, pending_of_pc _ (by simp)]
+    · have hex' : s.ex (s.h i).path = false := by simpa using hex
+      by_cases hopen : op = .open
+      · subst hopen
+        have hl : linPoint s i = none := by simp [linPoint, htodo, hpc, hex']
+        rw [hl]
+        have e : step s i = { s with h := upd s.h i { s.h i with pc := .got, snap := emptyRing, txs := [] } } := by
+          simp [step, stepCall, hpc, htodo, hex']
+        rw [e]
+        refine sim_local s _ a i _ h rfl rfl rfl rfl ?_ ?_ ?_
+        · intro hc; simp at hc
+        · intro _; exact ⟨.open, rest, htodo, by simp [prepare]⟩
+        · rw [hpend, pending_of_pc _ (by simp)]
+      · have hl : linPoint s i = some ⟨i, (s.h i).path, op⟩ := by simp [linPoint, htodo, hpc, hex', hopen]
+        rw [hl]
+        have e : step s i = { s with h := upd s.h i { s.h i with pc := .failed } } := by
+          simp [step, stepCall, hpc, htodo, hex', hopen]
+        rw [e]
+        refine sim_event_missing s _ a i _ op h hex' hopen rfl rfl rfl rfl ?_ hsn ?_
+        · simp
+        · rw [hpend]; simp [pending, htodo]
   | got =>
     have hcsi : inCS (s.h i).pc := by simp [inCS, hpc]
     have hpend : pending (s.h i) = [] := pending_of_pc _ (by simp [hpc])
@@ -296,7 +434,7 @@ theorem step_sim (c0 : Nat → Ring) (s : St) (a : AState) (i : Nat) (hI : Inv c
         have e : step s i = { s with new := upd s.new (s.h i).path (some r'), h := upd s.h i { s.h i with pc := .put, snap := r' } } := by
           simp [step, stepCall, hpc, happ, hnew]
         rw [e]
-        refine sim_local s _ a i _ h rfl rfl rfl ?_ ?_ ?_
+        refine sim_local s _ a i _ h rfl rfl rfl rfl ?_ ?_ ?_
         · intro _ hc; simp at hc
         · intro _; exact ⟨op, rest, htodo, hprep⟩
         · rw [hpend, pending_of_pc _ (by simp)]
@@ -309,14 +447,36 @@ theorem step_sim (c0 : Nat → Ring) (s : St) (a : AState) (i : Nat) (hI : Inv c
     obtain ⟨hp1, hp2⟩ := hI.putOk i hpc
     have hl : linPoint s i = some ⟨i, (s.h i).path, op⟩ := by simp [linPoint, htodo, hpc, hp1]
     rw [hl]
-    have e : step s i = { s with cur := upd s.cur (s.h i).path (s.h i).snap, new := upd s.new (s.h i).path none, commits := s.commits ++ [(⟨i, (s.h i).path, (s.h i).txs⟩ : Commit)], h := upd s.h i { s.h i with pc := .renamed } } := by
+    have e : step s i = { s with cur := upd s.cur (s.h i).path (s.h i).snap, new := upd s.new (s.h i).path none, commits := s.commits ++ [(⟨i, (s.h i).path, (s.h i).txs⟩ : Commit)], ex := upd s.ex (s.h i).path true, h := upd s.h i { s.h i with pc := .renamed } } := by
       simp [step, stepCall, hpc, hp1]
     rw [e]
-    refine sim_event s _ a i _ op h (s.h i).snap (s.h i).snap (some (s.h i).txs) ?_ rfl ?_ rfl ?_ rfl ?_
-    · simp [atomicOp, hop, hprep, h.cur, hp2]
-    · simp [hop]
-    · simp
-    · rw [hpend]; simp [pending, htodo]
+    by_cases hex : s.ex (s.h i).path = true
+    · refine sim_event s _ a i _ op h (s.h i).snap (s.h i).snap (some (s.h i).txs) hex ?_ rfl ?_ ?_ rfl ?_ rfl ?_
+      · simp [atomicOp, hop, hprep, h.cur, hp2]
+      · simp [hop]
+      · intro q
+        by_cases hq : q = (s.h i).path
+        · subst hq; simp [hex]
+        · simp [upd, hq]
+      · simp
+      · rw [hpend]; simp [pending, htodo, hpc]
+    · have hex' : s.ex (s.h i).path = false := by simpa using hex
+      obtain ⟨hc1, hc2⟩ := hI.crt i (Or.inr hpc)
+      obtain ⟨rest2, htodo2⟩ := hc1.mp hex'
+      rw [htodo] at htodo2; cases htodo2
+      have htx : (s.h i).txs = [] := hc2 hex'
+      have hsnapE : (s.h i).snap = emptyRing := by
+        rw [htx] at hp2
+        simp only [applyAll, Option.some.injEq] at hp2
+        rw [← hp2]; exact (hI.miss _ hex').1
+      refine sim_event_create s _ a i _ h hex' ?_ ?_ rfl rfl ?_ ?_ ?_
+      · show upd s.cur (s.h i).path (s.h i).snap = upd s.cur (s.h i).path emptyRing
+        rw [hsnapE]
+      · show s.commits ++ [(⟨i, (s.h i).path, (s.h i).txs⟩ : Commit)] = s.commits ++ [(⟨i, (s.h i).path, []⟩ : Commit)]
+        rw [htx]
+      · simp
+      · exact hsnapE
+      · rw [hpend]; simp [pending, htodo, hpc, htx]
   | renamed =>
     have hcsi : inCS (s.h i).pc := by simp [inCS, hpc]
     have hsn := h.snap i (by simp [hpc]) (by simp [hpc])
@@ -328,7 +488,7 @@ theorem step_sim (c0 : Nat → Ring) (s : St) (a : AState) (i : Nat) (hI : Inv c
     have e : step s i = { s with writer := none, h := upd s.h i (finish (s.h i) (some (s.h i).txs)) } := by
       simp [step, stepCall, hpc]
     rw [e, hfin]
-    refine sim_local s _ a i _ h rfl rfl rfl ?_ ?_ ?_
+    refine sim_local s _ a i _ h rfl rfl rfl rfl ?_ ?_ ?_
     · intro _ _; exact hsn
     · intro hc; simp at hc
     · rw [pending_of_pc _ (by simp)]; simp [pending, htodo, hpc]
@@ -343,26 +503,34 @@ theorem step_sim (c0 : Nat → Ring) (s : St) (a : AState) (i : Nat) (hI : Inv c
     have e : step s i = { s with writer := none, h := upd s.h i (finish (s.h i) none) } := by
       simp [step, stepCall, hpc]
     rw [e, hfin]
-    refine sim_local s _ a i _ h rfl rfl rfl ?_ ?_ ?_
+    refine sim_local s _ a i _ h rfl rfl rfl rfl ?_ ?_ ?_
     · intro _ _; exact hsn
     · intro hc; simp at hc
     · rw [pending_of_pc _ (by simp)]; simp [pending, htodo, hpc]
   | rlocked =>
     have hri : isReader (s.h i).pc := by simp [isReader, hpc]
     have hpend : pending (s.h i) = [] := pending_of_pc _ (by simp [hpc])
+    have hsn := h.snap i (by simp [hpc]) (by simp [hpc])
     obtain ⟨rest, htodo⟩ := hI.todoR i hri
     have hl : linPoint s i = some ⟨i, (s.h i).path, .refresh⟩ := by simp [linPoint, htodo, hpc]
     rw [hl]
-    have e : step s i = { s with h := upd s.h i { s.h i with pc := .rgot, snap := s.cur (s.h i).path } } := by
-      simp [step, stepCall, hpc]
-    rw [e]
-    refine sim_event s _ a i _ .refresh h (s.cur (s.h i).path) (s.cur (s.h i).path) (some []) ?_ ?_ ?_ rfl ?_ rfl ?_
-    · simp [atomicOp, h.cur]
-    · show s.cur = upd s.cur (s.h i).path (s.cur (s.h i).path)
-      funext q; by_cases hq : q = (s.h i).path <;> simp [upd, hq]
-    · simp
-    · simp
-    · rw [hpend]; simp [pending, htodo]
+    by_cases hex : s.ex (s.h i).path = true
+    · have e : step s i = { s with h := upd s.h i { s.h i with pc := .rgot, snap := s.cur (s.h i).path } } := by
+        simp [step, stepCall, hpc, hex]
+      rw [e]
+      refine sim_event s _ a i _ .refresh h (s.cur (s.h i).path) (s.cur (s.h i).path) (some []) hex ?_ ?_ ?_ (fun _ => rfl) rfl ?_ rfl ?_
+      · simp [atomicOp, h.cur]
+      · exact updSelf _
+      · simp
+      · simp
+      · rw [hpend]; simp [pending, htodo]
+    · have hex' : s.ex (s.h i).path = false := by simpa using hex
+      have e : step s i = { s with h := upd s.h i { s.h i with pc := .rfailed } } := by
+        simp [step, stepCall, hpc, hex']
+      rw [e]
+      refine sim_event_missing s _ a i _ .refresh h hex' (by simp) rfl rfl rfl rfl ?_ hsn ?_
+      · simp
+      · rw [hpend]; simp [pending, htodo]
   | rgot =>
     have hri : isReader (s.h i).pc := by simp [isReader, hpc]
     have hsn := h.snap i (by simp [hpc]) (by simp [hpc])
@@ -374,7 +542,22 @@ theorem step_sim (c0 : Nat → Ring) (s : St) (a : AState) (i : Nat) (hI : Inv c
     have e : step s i = { s with readers := s.readers.erase i, h := upd s.h i (finish (s.h i) (some [])) } := by
       simp [step, stepCall, hpc]
     rw [e, hfin]
-    refine sim_local s _ a i _ h rfl rfl rfl ?_ ?_ ?_
+    refine sim_local s _ a i _ h rfl rfl rfl rfl ?_ ?_ ?_
+    · intro _ _; exact hsn
+    · intro hc; simp at hc
+    · rw [pending_of_pc _ (by simp)]; simp [pending, htodo, hpc]
+  | rfailed =>
+    have hri : isReader (s.h i).pc := by simp [isReader, hpc]
+    have hsn := h.snap i (by simp [hpc]) (by simp [hpc])
+    obtain ⟨rest, htodo⟩ := hI.todoR i hri
+    have hl : linPoint s i = none := by simp [linPoint, htodo, hpc]
+    rw [hl]
+    have hfin : finish (s.h i) none = { s.h i with pc := .idle, txs := [], todo := rest, done := (s.h i).done ++ [(.refresh, none)] } := by
+      simp [finish, htodo]
+    have e : step s i = { s with readers := s.readers.erase i, h := upd s.h i (finish (s.h i) none) } := by
+      simp [step, stepCall, hpc]
+    rw [e, hfin]
+    refine sim_local s _ a i _ h rfl rfl rfl rfl ?_ ?_ ?_
     · intro _ _; exact hsn
     · intro hc; simp at hc
     · rw [pending_of_pc _ (by simp)]; simp [pending, htodo, hpc]
@@ -394,6 +577,6 @@ theorem run_sim (c0 : Nat → Ring) (s : St) (a : AState) (sched : List Nat) (hI
     exact ih _ _ (step_inv c0 s i hI) (step_sim c0 s a i hI h)
 
 /-- the atomic store at the start -/
-def AState.init (s : St) : AState := ⟨s.cur, fun i => (s.h i).snap, []⟩
+def AState.init (s : St) : AState := ⟨s.cur, fun i => (s.h i).snap, [], s.ex⟩
 
 end AcraModel.KeystoreSec.Conc
